@@ -254,3 +254,10 @@ fn expected_sync_direction(self_node_id: &EndpointId, other_node_id: &EndpointId
         SyncDirection::Connect
     }
 }
+
+/// Verification harness bodies with access to this module's private items (feature `verif`).
+#[cfg(feature = "verif")]
+#[doc(hidden)]
+#[allow(missing_docs, missing_debug_implementations, dead_code, unused)]
+#[path = "/verif/kani/incrate/engine_state.rs"]
+pub mod verif_incrate;
